@@ -6,6 +6,7 @@ import (
 	"go/constant"
 	"go/token"
 	"go/types"
+	"sort"
 	"strings"
 )
 
@@ -249,6 +250,49 @@ func ruleR162(c *Ctx) {
 		})
 		if !okArgs {
 			problems = append(problems, "the single stack argument of the generated function is not the name the attributes are attached to")
+		}
+	}
+	// sibling agreement: Generate (explicit mode) and GenerateWithMap (implicit mode) resolve names against the same base
+	// scope; only the AddMap wrapper may differ. Both hand their scope to generateIntern.
+	if gen := c.FuncDecl(a.fg, "FunctionGenerator", "Generate"); gen != nil {
+		giObj := info.Defs[gi.Name]
+		scopeArg := func(fd *ast.FuncDecl) ast.Expr {
+			var arg ast.Expr
+			ast.Inspect(fd.Body, func(x ast.Node) bool {
+				call, ok := x.(*ast.CallExpr)
+				if !ok {
+					return true
+				}
+				if cal := Callee(info, call); cal == nil || types.Object(cal) != giObj && cal.Origin() != giObj {
+					return true
+				}
+				for _, ar := range call.Args {
+					if isNamed(info.TypeOf(ar), modPath, "Identifiers") {
+						arg = ar
+					}
+				}
+				return true
+			})
+			if arg == nil {
+				return nil
+			}
+			// through a local variable
+			if id, ok := ast.Unparen(arg).(*ast.Ident); ok {
+				if as, i := definingAssign(info, fd, info.ObjectOf(id)); as != nil && len(as.Lhs) == len(as.Rhs) {
+					arg = as.Rhs[i]
+				}
+			}
+			// strip the AddMap wrapper
+			if call, ok := ast.Unparen(arg).(*ast.CallExpr); ok && isCallTo(info, call, addMap) {
+				if sel, ok := ast.Unparen(call.Fun).(*ast.SelectorExpr); ok {
+					arg = sel.X
+				}
+			}
+			return ast.Unparen(arg)
+		}
+		ge, we := scopeArg(gen), scopeArg(gwm)
+		if ge != nil && we != nil && nodeStr(c.Fset, ge) != nodeStr(c.Fset, we) {
+			problems = append(problems, fmt.Sprintf("Generate resolves names against %s, GenerateWithMap wraps %s with AddMap: the two modes do not see the same constants and static functions (a name that only one base scope knows is an attribute in one mode and a function/constant in the other)", nodeStr(c.Fset, ge), nodeStr(c.Fset, we)))
 		}
 	}
 	// generateIntern: AddArgs on the incoming scope (arguments shadow everything)
@@ -589,4 +633,92 @@ func ruleR165(c *Ctx) {
 	if n < 5 {
 		c.Undecided("parser2.Identifiers#parent-lookups", token.NoPos, "only %d parent lookups found", n)
 	}
+}
+
+// ---------------------------------------------------------------------------
+// R16.6 IsMap and AccessMap agree on what a map is.
+//
+// funcGen asks the map handler IsMap(v) as a gate when it compiles v.name(args)
+// (a closure stored in a map field is called instead of a method) and
+// AccessMap(v, key) for member access. Implicit attribute mode turns f(a) into
+// an attribute access plus a call, explicit mode writes m.f(m.a), which passes
+// the IsMap gate: if the two functions of one handler recognise maps
+// differently (one by the conversion ToMap, which also accepts values that
+// wrap a map, the other by a type assertion), the two modes disagree for such
+// values. Sibling agreement: both use the same recogniser.
+
+func ruleR166(c *Ctx) {
+	n := 0
+	for _, pkg := range c.RepoPkgs {
+		if strings.Contains(pkg.PkgPath, "/example") || strings.HasSuffix(pkg.PkgPath, "/gen") {
+			continue
+		}
+		info := pkg.TypesInfo
+		byRecv := map[string]map[string]*ast.FuncDecl{}
+		for _, f := range pkg.Syntax {
+			for _, d := range f.Decls {
+				fd, ok := d.(*ast.FuncDecl)
+				if !ok || fd.Body == nil || fd.Recv == nil || (fd.Name.Name != "IsMap" && fd.Name.Name != "AccessMap") {
+					continue
+				}
+				r := recvTypeName(fd.Recv.List[0].Type)
+				if byRecv[r] == nil {
+					byRecv[r] = map[string]*ast.FuncDecl{}
+				}
+				byRecv[r][fd.Name.Name] = fd
+			}
+		}
+		for r, ms := range byRecv {
+			isMap, access := ms["IsMap"], ms["AccessMap"]
+			if isMap == nil || access == nil {
+				continue
+			}
+			n++
+			recogniser := func(fd *ast.FuncDecl) string {
+				if fd.Type.Params == nil || len(fd.Type.Params.List) == 0 || len(fd.Type.Params.List[0].Names) == 0 {
+					return "?"
+				}
+				pobj := info.Defs[fd.Type.Params.List[0].Names[0]]
+				kinds := map[string]bool{}
+				ast.Inspect(fd.Body, func(x ast.Node) bool {
+					switch t := x.(type) {
+					case *ast.CallExpr:
+						if sel, ok := ast.Unparen(t.Fun).(*ast.SelectorExpr); ok {
+							if id, ok := ast.Unparen(sel.X).(*ast.Ident); ok && info.ObjectOf(id) == pobj {
+								kinds["the method "+sel.Sel.Name+"()"] = true
+							}
+						}
+					case *ast.TypeAssertExpr:
+						if id, ok := ast.Unparen(t.X).(*ast.Ident); ok && info.ObjectOf(id) == pobj && t.Type != nil {
+							kinds["a type assertion to "+nodeStr(c.Fset, t.Type)] = true
+						}
+					}
+					return true
+				})
+				var ks []string
+				for k := range kinds {
+					ks = append(ks, k)
+				}
+				sort.Strings(ks)
+				return strings.Join(ks, " and ")
+			}
+			a, b := recogniser(isMap), recogniser(access)
+			key := declName(pkg, isMap) + "#agrees-with-AccessMap"
+			if a == b && a != "" {
+				c.OK(key, isMap.Pos(), "IsMap and AccessMap of %s recognise a map by %s", r, a)
+			} else {
+				c.Violation(key, isMap.Pos(), "IsMap of %s recognises a map by %s, AccessMap by %s: for a value that only one of them accepts (a value that wraps a map, such as a styled or linked map) member access works while the method-call gate does not see a map, so m.f(m.a) and the implicit f(a) behave differently", r, orNothing(a), orNothing(b))
+			}
+		}
+	}
+	if n == 0 {
+		c.Undecided("repo#map-handlers", token.NoPos, "no type with IsMap and AccessMap found")
+	}
+}
+
+func orNothing(s string) string {
+	if s == "" {
+		return "nothing that involves its argument"
+	}
+	return s
 }
